@@ -10,7 +10,9 @@ import Marwood.Lemmas.CompileCorrectDemo
 import Marwood.Lemmas.CompileCorrectLoop
 import Marwood.Lemmas.CompileCorrect2ErrAtoms
 import Marwood.Lemmas.CompileCorrect2Quote
+import Marwood.Lemmas.CompileCorrect2QuoteDemo
 import Marwood.Lemmas.CompileCorrect2Demo
+import Marwood.Lemmas.CompileCorrect2DemoCapture
 import Marwood.Lemmas.CompileCorrect2FailDemo
 /-!
 # C01 — evaluation agrees with the language semantics for core and derived forms
@@ -619,8 +621,10 @@ theorem set_unbound_spec_fails {r : Rec} {x : Text} {e : Datum} {σ σ1 : St} {v
 a heap pair / vector whose components represent `a`, `d` / the elements represents the store pair / vector;
 representations are monotone in the store). `DatumAt` describes what `put_cell` lays out at compile time.
 One heap object represents every copy `Spec.Eval.quoteVal` allocates — sound while constants are not
-mutated (R7RS: an error; `Spec.Eval` and marwood differ there, see META.note). The laws hold for the closure
-of any store-independent base relation (`closedVR_quoteLaws`). -/
+mutated (R7RS: an error; `Spec.Eval` and marwood differ there, see `quoted_constant_mutation_spec`). The laws
+hold for the closure of any store-independent base relation (`closedVR_quoteLaws`); every hypothesis is
+discharged on the CONCRETE heap model for `'(1 . 2)` (`demo_quote_pair`). Stage 2 below has `(quote d)` for
+every datum and self-evaluating vector constants in its fragment, through these lemmas. -/
 
 open Marwood.Lemmas.CompileCorrect in
 /-- **`(quote d)` for any datum `d`**: `MOV-IMMEDIATE <v> %acc` with the datum laid out at `v` leaves a
@@ -646,16 +650,20 @@ one-level `LexicalEnvPtr` to the location standing for the captured variable; `W
 variable locations (environment id, slot) and specification locations one-to-one; `Inv2` is the heap/state
 invariant (globals, loaded code, every related location holds a value — not a pointer — representing the
 variable's content); `EnvRep` says the current `ep` represents the specification's `ρ` through the binding
-context. ASSUMED: `Laws2 D` — observation of values (`truth`, …), the global store, `envPut` on a value slot,
+context. ASSUMED: `Laws2 D` — observation of values (`truth`, …), the pair / vector closure rules of the
+representation (`vr_pair`, `vr_vec`) and "nothing mutates a compile-time constant" (`Ext2.datum`, a field of what
+every heap operation and builtin must preserve), the global store, `envPut` on a value slot,
 CLOSURE (`closure_ok`: a fresh environment whose captured slots are what `build_closure_environment`
 computes, a fresh closure cell, everything else unchanged), ENTER (`activation_ok`: a fresh environment
 with the arguments from the stack and the captured pointers copied), and the behaviour of primitive
 procedures (`call`). The laws are PROVED for the small heap of `Lemmas/CompileCorrect2Toy.lean` (`Toy.laws`),
-and every hypothesis is discharged for `((lambda (x) (if x 1 2)) #t)` (`demo_closure_runs`) and for the tail
-call `((lambda (f) (f #t)) (lambda (x) (if x 1 2)))` (`demo_tailcall_runs`).
+and every hypothesis is discharged for `((lambda (x) (if x 1 2)) #t)` (`demo_closure_runs`), for the tail
+call `((lambda (f) (f #t)) (lambda (x) (if x 1 2)))` (`demo_tailcall_runs`) and for a captured variable,
+`((lambda (x) ((lambda (y) x) 2)) 1)` (`demo_capture_runs`).
 
 Fragment `F2 fuel c ns tail e` (indexed by compiler fuel, binding context, bound names, tail flag):
-constants, `(quote atom)`, variable reference and `set!` (lexical at any depth, or global), `if`, application
+constants (vector constants included), `(quote d)` for every datum `d`, variable reference and `set!` (lexical
+at any depth, or a global of `D.setG`), `if`, application
 (tail and non-tail; callee a primitive or a closure), `(lambda (x …) b …)` with fixed arity, DISTINCT
 parameters, no internal definitions. The fragment carries well-scopedness as data about the compiler model:
 for each `lambda` the environment map `lambdaParts` computes is the formals followed by captured variables
